@@ -424,7 +424,9 @@ class Model:
     """
 
     _ids: dict[str, str] = field(default_factory=dict, repr=False)
-    _cache: ModelCache | None = field(default=None, repr=False)
+    # derived from the containers below: two models with the same content are equal
+    # whether or not one of them has been queried
+    _cache: ModelCache | None = field(default=None, repr=False, compare=False)
     _variables: dict[str, Variable] = field(default_factory=dict)
     _parameters: dict[str, Parameter] = field(default_factory=dict)
     _derived: dict[str, Derived] = field(default_factory=dict)
